@@ -1,0 +1,9 @@
+//go:build verif
+
+package limiter
+
+// VerifGC runs one garbage collection pass (normally run once a minute by gcLoop).
+func (cl *ClientLimiter) VerifGC() { cl.gc() }
+
+// VerifLen returns the number of buckets.
+func (cl *ClientLimiter) VerifLen() int { return cl.m.Size() }
